@@ -42,6 +42,8 @@ FLAVOURS = {
     "tsan": ("gcc", "-O1 -g -fsanitize=thread", "-fsanitize=thread"),
     "o0": ("gcc", "-O0 -g", "-Wl,-z,now"),
     "opt": ("gcc", "-O2 -g", ""),
+    "fuzz": ("clang-14", "-O1 -g -fno-omit-frame-pointer -fsanitize=fuzzer-no-link,address,undefined "
+             "-fno-sanitize-recover=all", "-fsanitize=fuzzer,address,undefined"),
     "so": ("gcc", "-O2 -g -fPIC -DPIC", ""),
     "so-asan": ("gcc", "-O1 -g -fno-omit-frame-pointer -fPIC -DPIC "
                 "-fsanitize=address,undefined -fno-sanitize-recover=all",
@@ -137,6 +139,21 @@ def _config_h(dest):
     return "fallback"
 
 
+def apply_config_overrides(cfg, overrides):
+    """Rewrite '#define K ...' lines of a config.h; a value of None undefines K."""
+    with open(cfg) as f:
+        t = f.read()
+    for k, v in overrides.items():
+        if v is None:
+            t = re.sub(r"(?m)^#define %s\b.*$" % re.escape(k), "/* #undef %s */" % k, t)
+            continue
+        t, n = re.subn(r"#define %s \S+" % re.escape(k), "#define %s %s" % (k, v), t)
+        if not n:
+            t += "\n#define %s %s\n" % (k, v)
+    with open(cfg, "w") as f:
+        f.write(t)
+
+
 def gen_headers(dest, hashes=None, obsolete_api=None, config_overrides=None):
     """Generate crypt.h, crypt-hashes.h, crypt-symbol-vers.h, libcrypt.map in
     dest with the repository's own scripts.  hashes: list of enabled method
@@ -155,14 +172,7 @@ def gen_headers(dest, hashes=None, obsolete_api=None, config_overrides=None):
         with open(cfg, "w") as f:
             f.write(t)
     if config_overrides:
-        with open(cfg) as f:
-            t = f.read()
-        for k, v in config_overrides.items():
-            t, n = re.subn(r"#define %s \S+" % re.escape(k), "#define %s %s" % (k, v), t)
-            if not n:
-                t += "\n#define %s %s\n" % (k, v)
-        with open(cfg, "w") as f:
-            f.write(t)
+        apply_config_overrides(cfg, config_overrides)
     hs = sorted(hashes) if hashes is not None else ALL_HASHES
     enabled = "," + ",".join(hs) + ","
     scr = os.path.join(REPO, "build-aux", "scripts")
@@ -194,15 +204,19 @@ def gen_headers(dest, hashes=None, obsolete_api=None, config_overrides=None):
     return dest
 
 
-def compile_objects(objdir, gendir, cc, cflags, sources=None, extra_defs=""):
+def compile_objects(objdir, gendir, cc, cflags, sources=None, extra_defs="", plain_prefix=None):
+    """plain_prefix: sources whose name starts with it are compiled at -O2
+    without instrumentation (the fuzz flavour keeps the hash cores fast and
+    instruments the parsers and the API layer only)."""
     os.makedirs(objdir, exist_ok=True)
     sources = sources or LIB_SOURCES
     lib = os.path.join(REPO, "lib")
     jobs = []
     for s in sources:
         o = os.path.join(objdir, s[:-2] + ".o")
+        fl = "-O2 -g" if plain_prefix and s.startswith(plain_prefix) else cflags
         jobs.append("%s -std=gnu11 -w -DHAVE_CONFIG_H -DIN_LIBCRYPT -D%s %s %s -I%s -I%s "
-                    "-c %s -o %s" % (cc, GUARD, extra_defs, cflags, gendir, lib,
+                    "-c %s -o %s" % (cc, GUARD, extra_defs, fl, gendir, lib,
                                      os.path.join(lib, s), o))
     script = "\n".join(jobs)
     p = subprocess.run(["xargs", "-P", str(NPROC), "-d", "\n", "-n", "1",
@@ -260,18 +274,38 @@ class Tree:
         od = os.path.join(self.dir, flavour, "obj")
         with self._lock(flavour):
             if not os.path.exists(os.path.join(od, ".done")):
-                compile_objects(od, gd, cc, cflags)
+                compile_objects(od, gd, cc, cflags, plain_prefix="alg-" if flavour == "fuzz" else None)
                 open(os.path.join(od, ".done"), "w").close()
         return [os.path.join(od, s[:-2] + ".o") for s in LIB_SOURCES]
 
+    def variant_object(self, flavour, source, tag, config_overrides):
+        """One library source compiled for `flavour` against a copy of the
+        generated headers whose config.h has `config_overrides` applied."""
+        cc, cflags, _ = FLAVOURS[flavour]
+        gd = self.gendir()
+        vd = os.path.join(self.dir, "gen-" + tag)
+        od = os.path.join(self.dir, flavour, "obj-" + tag)
+        out = os.path.join(od, source[:-2] + ".o")
+        with self._lock(flavour + "-variant-" + tag):
+            if not os.path.exists(out):
+                if not os.path.exists(os.path.join(vd, ".done")):
+                    shutil.rmtree(vd, ignore_errors=True)
+                    shutil.copytree(gd, vd)
+                    apply_config_overrides(os.path.join(vd, "config.h"), config_overrides)
+                    open(os.path.join(vd, ".done"), "w").close()
+                compile_objects(od, vd, cc, cflags, sources=[source])
+        return out
+
     def program(self, flavour, src, name=None, wrap=True, libs="", extra_cflags="",
-                with_objects=True):
+                with_objects=True, replace=None):
         """Compile harness/<src> and link it with the library OBJECTS of
         flavour (never an archive: sanitizer runtimes intercept crypt/crypt_r)."""
         cc, cflags, ldflags = FLAVOURS[flavour]
         name = name or (os.path.splitext(src)[0] + "-" + flavour)
         out = os.path.join(self.dir, flavour, name)
         objs = self.objects(flavour) if with_objects else []
+        if replace:
+            objs = [replace.get(os.path.basename(o), o) for o in objs]
         with self._lock(flavour + "-" + name):
             if os.path.exists(out):
                 return out
